@@ -109,6 +109,38 @@ let spec_ok (c : case) (field : string) (ok : bool) (detail : string) =
   end
 
 (* ---------- C14: varint ---------- *)
+(* ---------- kernel cross-check ----------
+   A sample of the model evaluations this driver performs with the EXTRACTED code is written out as Coq
+   goals ("model function applied to these inputs = this value", closed by vm_compute; reflexivity); check
+   compiles them with coqc, so the kernel's own evaluation of the model must agree with the extracted OCaml
+   and with this driver's parsing and printing.  KX_OUT = path prefix; at most kx_limit goals per kind and
+   shard, inputs below kx_max_size bytes. *)
+let kx_chan : out_channel option ref = ref None
+let kx_budget : (string, int) Hashtbl.t = Hashtbl.create 8
+let kx_limit = 2
+let kx_max_size = 1200
+let kx_want kind size =
+  !kx_chan <> None && size <= kx_max_size &&
+  (try Hashtbl.find kx_budget kind with Not_found -> 0) < kx_limit
+let kx_emit kind (cid : string) (lhs : string) (rhs : string) =
+  match !kx_chan with
+  | None -> ()
+  | Some ch ->
+    Hashtbl.replace kx_budget kind ((try Hashtbl.find kx_budget kind with Not_found -> 0) + 1);
+    Printf.fprintf ch "(* %s %s *)\nGoal %s = %s. Proof. vm_compute. reflexivity. Qed.\n" kind cid lhs rhs
+let cq_n (x : n) = string_of_n x
+let cq_list f l = "[" ^ String.concat "; " (List.map f l) ^ "]"
+let cq_bytes (l : n list) = cq_list cq_n l
+let cq_entry ((k, v) : n list * n list) = "(" ^ cq_bytes k ^ ", " ^ cq_bytes v ^ ")"
+let cq_entries l = cq_list cq_entry l
+let cq_opt f = function None -> "None" | Some x -> "(Some " ^ f x ^ ")"
+let cq_err (e : err) = match e with
+  | EIo k -> "(EIo " ^ cq_n k ^ ")" | EMerge -> "EMerge" | EInvalidCodec -> "EInvalidCodec"
+  | EInvalidVersion -> "EInvalidVersion" | EFuel -> "EFuel"
+let cq_outcome f = function Done a -> "(Done " ^ f a ^ ")" | Panic -> "Panic" | Fail e -> "(Fail " ^ cq_err e ^ ")"
+let cq_bool b = if b then "true" else "false"
+let bytes_size (l : (n list * n list) list) = List.fold_left (fun a (k, v) -> a + List.length k + List.length v + 2) 0 l
+
 let handle_varint c =
   let v = int_of_string (get1 c "v") in
   let rest = bytes_of_hex (get1 c "rest") in
@@ -120,6 +152,11 @@ let handle_varint c =
     | Done (value, l) -> Printf.sprintf "%d %d" (int_of_n value) (int_of_n l)
     | Panic -> "panic" | Fail _ -> "fail" in
   check_eq c "dec" impl_dec model_dec;
+  if kx_want "varint" (List.length rest) then begin
+    kx_emit "varint" c.id (Printf.sprintf "varint_encode32 %d" v) (cq_bytes enc);
+    kx_emit "varint" c.id (Printf.sprintf "varint_decode32 %s" (cq_bytes (app enc rest)))
+      (cq_outcome (fun (a, b) -> "(" ^ cq_n a ^ ", " ^ cq_n b ^ ")") (varint_decode32 (app enc rest)))
+  end;
   (* property predicate on the implementation's own observation *)
   let l = String.length impl_enc / 2 in
   spec_ok c "roundtrip" (impl_dec = Printf.sprintf "%d %d" v l && l >= 1 && l <= 5)
@@ -207,6 +244,13 @@ let handle_file c =
     | WPanicFinish -> "panic_finish -" | WFail e -> "err " ^ err_name e in
   let impl_kind = match impl with "file" :: _ -> "file" | l -> String.concat " " l in
   check_eq c "outcome" impl_kind model_kind;
+  if cfg.wc_codec = N0 && kx_want "writer" (bytes_size es) then
+    kx_emit "writer" c.id
+      (Printf.sprintf "kx_wres (w_run compress_none (mk_wcfg %s %s %s %s %s) %s)" (cq_n cfg.wc_codec) (cq_n cfg.wc_level)
+         (cq_n cfg.wc_block_size) (cq_n cfg.wc_interval) (cq_n cfg.wc_levels) (cq_entries es))
+      (match model with
+       | WFile (f, _, m) -> Printf.sprintf "inl (%s, %s, %s)" (cq_bytes f) (cq_n m.m_root) (cq_n m.m_count)
+       | WPanicInsert i -> "inr (Some (Some " ^ cq_n i ^ "))" | WPanicFinish -> "inr (Some None)" | WFail _ -> "inr None");
   let sorted_input = sorted_strictb (List.map fst es) in
   let spec_hash = entries_hash es in
   (match impl with
@@ -379,6 +423,28 @@ let handle_hist c =
     end;
     let load = memo_load (load_block dec file m.m_codec) in
     let step st o = cstep load m.m_root m.m_levels st o in
+    (* kernel cross-check: the history of cursor 0 when it is the only cursor and nothing fails *)
+    if m.m_codec = N0 && get_all c "fault" = [] && kx_want "history" (List.length file) then begin
+      let ops = List.filter_map (fun toks -> match toks with
+        | "0" :: name :: q :: "=" :: r when name <> "clone" && r <> ["F"] -> Some (Some (name, q, parse_op name q))
+        | _ -> Some None) (get_all c "o") in
+      if ops <> [] && List.for_all (fun o -> o <> None) ops then begin
+        let ops = List.map (function Some x -> x | None -> assert false) ops in
+        let rec run st l = match l with
+          | [] -> Done []
+          | (_, _, o) :: r ->
+            (match cstep (load_block dec file m.m_codec) m.m_root m.m_levels st o with
+             | Done (st', e) -> (match run st' r with Done y -> Done (e :: y) | Panic -> Panic | Fail x -> Fail x)
+             | Panic -> Panic | Fail x -> Fail x) in
+        let cq_op (name, q, _) = match name with
+          | "first" -> "OFirst" | "last" -> "OLast" | "next" -> "ONext" | "prev" -> "OPrev" | "reset" -> "OReset" | "current" -> "OCurrent"
+          | "ge" -> "OGe " ^ cq_bytes (bytes_of_hex q) | "le" -> "OLe " ^ cq_bytes (bytes_of_hex q) | _ -> "OEq " ^ cq_bytes (bytes_of_hex q) in
+        kx_emit "history" c.id
+          (Printf.sprintf "kx_hist (load_block decompress_none %s %s) %s %s cs_fresh %s" (cq_bytes file) (cq_n m.m_codec) (cq_n m.m_root) (cq_n m.m_levels)
+             (cq_list cq_op ops))
+          (cq_outcome (cq_list (cq_opt cq_entry)) (run cs_fresh ops))
+      end
+    end;
     let states : (string, cstate * apos) Hashtbl.t = Hashtbl.create 4 in
     Hashtbl.replace states "0" (cs_fresh, Fresh);
     (* cursors whose model state is unknown (after a failed operation), and cursors re-synchronised since *)
@@ -513,6 +579,15 @@ let handle_iter c =
         let spec_l = range_spec es lo hi in
         let spec_s = iter_result (if dir = "rev" then List.rev spec_l else spec_l) in
         spec_ok c (prop ^ "." ^ field) (impl_s = spec_s) (Printf.sprintf "range %s %s %s %s %s: impl=%s spec=%s" lk lv hk hv dir impl_s spec_s);
+        if m.m_codec = N0 && kx_want "range" (List.length file) then begin
+          let pstep st o = cstep (load_block dec file m.m_codec) m.m_root m.m_levels st o in
+          let cq_bound b = match b with Unbounded -> "Unbounded" | Included x -> "(Included " ^ cq_bytes x ^ ")" | Excluded x -> "(Excluded " ^ cq_bytes x ^ ")" in
+          kx_emit "range" c.id
+            (Printf.sprintf "collect (%s (cstep (load_block decompress_none %s %s) %s %s) %s %s) (N.to_nat %d) iter_new"
+               (if dir = "rev" then "rev_range_next" else "range_next") (cq_bytes file) (cq_n m.m_codec) (cq_n m.m_root) (cq_n m.m_levels)
+               (cq_bound lo) (cq_bound hi) (List.length es + 2))
+            (cq_outcome cq_entries (collect (if dir = "rev" then rev_range_next pstep lo hi else range_next pstep lo hi) fuel iter_new))
+        end;
         check_eq c field impl_s (run (if dir = "rev" then rev_range_next step lo hi else range_next step lo hi))
       | "prefix" :: p :: dir :: "=" :: impl ->
         let p = bytes_of_hex p in
@@ -520,6 +595,15 @@ let handle_iter c =
         let spec_l = prefix_spec es p in
         let spec_s = iter_result (if dir = "rev" then List.rev spec_l else spec_l) in
         spec_ok c (prop ^ "." ^ field) (impl_s = spec_s) (Printf.sprintf "prefix %s %s: impl=%s spec=%s" (hex_of_bytes p) dir impl_s spec_s);
+        if m.m_codec = N0 && kx_want "prefix" (List.length file) then begin
+          let pstep st o = cstep (load_block dec file m.m_codec) m.m_root m.m_levels st o in
+          kx_emit "prefix" c.id
+            (Printf.sprintf "collect (%s (cstep (load_block decompress_none %s %s) %s %s) %s) (N.to_nat %d) iter_new"
+               (if dir = "rev" then "rev_prefix_next" else "prefix_next") (cq_bytes file) (cq_n m.m_codec) (cq_n m.m_root) (cq_n m.m_levels)
+               (cq_bytes p) (List.length es + 2))
+            (cq_outcome cq_entries (collect (if dir = "rev" then rev_prefix_next pstep p else prefix_next pstep p) fuel iter_new));
+          kx_emit "prefix" c.id (Printf.sprintf "prefix_spec %s %s" (cq_entries es) (cq_bytes p)) (cq_entries (prefix_spec es p))
+        end;
         check_eq c field impl_s (run (if dir = "rev" then rev_prefix_next step p else prefix_next step p))
       | _ -> failwith "bad q line") (get_all c "q")
   | _ -> spec_ok c (prop ^ ".open") false "file does not open in the model"
@@ -558,6 +642,10 @@ let handle_merge c =
   let show l = String.concat ";" (List.map (fun (k, v) -> hex_of_bytes k ^ ":" ^ hex_of_bytes v) l) in
   check_eq c "out" (show impl_out) (show mout);
   check_eq c "end" impl_end mend;
+  if get c "mf" <> ["failat"] && (match get c "mf" with "failat" :: _ -> false | _ -> true)
+     && kx_want "merge" (List.fold_left (fun a s -> a + bytes_size s) 0 srcs) then
+    kx_emit "merge" c.id (Printf.sprintf "merge_run mf_concat 0 %s" (cq_list cq_entries srcs))
+      (cq_outcome (fun (o, n) -> "(" ^ cq_entries o ^ ", " ^ cq_n n ^ ")") (merge_run mf_concat N0 srcs));
   let show_calls l = String.concat ";" (List.map (fun (k, vs) -> hex_of_bytes k ^ "<-" ^ String.concat "," (List.map hex_of_bytes vs)) l) in
   let impl_calls = List.map (fun t -> match t with
       | [k; vs] -> (bytes_of_hex k, List.map bytes_of_hex (String.split_on_char ',' vs))
@@ -685,6 +773,13 @@ let handle_sorter c =
        | _ -> spec_ok c (prop ^ ".noerr") false (field ^ " returned " ^ String.concat " " res));
       st := r; nst := nr
     | _ -> ()) ins;
+  if stable && (match crfail with None -> true | Some _ -> false) && kx_want "sorter" (bytes_size (List.map fst ins)) then begin
+    let cfgs = Printf.sprintf "(mk_scfg %s %s %s %s)" (cq_n scfg.sc_threshold) (cq_bool scfg.sc_realloc) (cq_n scfg.sc_max_chunks) (cq_n scfg.sc_init_cap) in
+    kx_emit "sorter" c.id (Printf.sprintf "sorter_run %s mf_concat %s" cfgs (cq_entries (List.map fst ins)))
+      (cq_outcome cq_entries (sorter_run scfg mf_concat (List.map fst ins)));
+    kx_emit "sorter" c.id (Printf.sprintf "sorter_spec mf_concat %s" (cq_entries (List.map fst ins)))
+      (cq_outcome cq_entries (sorter_spec mf_concat (List.map fst ins)))
+  end;
   (match !st, get_all c "out1" with
    | Done s, [o1] ->
      let spec = (match sorter_spec mf (List.map fst ins) with Done l -> entries_hash l | Panic -> "panic -" | Fail e -> "err " ^ err_name e) in
@@ -751,6 +846,12 @@ let handle_open c =
     | Done m -> Printf.sprintf "ok %d %s %s" (match m.m_version with FormatV1 -> 0 | FormatV2 -> 1) (string_of_n m.m_codec) (string_of_n m.m_count)
     | Panic -> "panic" | Fail e -> "err " ^ err_name e in
   check_eq c "open" impl model;
+  if kx_want "open" (List.length f) then
+    kx_emit "open" c.id ("open_meta " ^ cq_bytes f)
+      (cq_outcome (fun m -> Printf.sprintf "(mk_meta %s %s %s %s %s)" (match m.m_version with FormatV1 -> "FormatV1" | FormatV2 -> "FormatV2")
+                              (cq_n m.m_root) (cq_n m.m_codec) (cq_n m.m_count) (cq_n m.m_levels)) (open_meta f));
+  if kx_want "trailer" (List.length f) then
+    kx_emit "trailer" c.id ("valid_trailer_suffixb " ^ cq_bytes f) (cq_bool (valid_trailer_suffixb f));
   let accepted = String.length impl >= 2 && String.sub impl 0 2 = "ok" in
   spec_ok c "C13.nopanic" (impl <> "panic") "Reader::new panicked";
   spec_ok c "C13.iff" (accepted = valid_trailer_suffixb f)
@@ -939,6 +1040,10 @@ let () =
   let path = Sys.argv.(1) in
   if Array.length Sys.argv >= 4 then begin
     shard := int_of_string Sys.argv.(2); n_shards := int_of_string Sys.argv.(3) end;
+  (match Sys.getenv_opt "KX_OUT" with
+   | Some prefix when prefix <> "" -> kx_chan := Some (open_out (Printf.sprintf "%s.%d" prefix !shard))
+   | _ -> ());
   read_cases path dispatch;
+  (match !kx_chan with Some ch -> close_out ch | None -> ());
   Printf.printf "SUMMARY cases=%d checks=%d mismatches=%d specfails=%d\n"
     !n_cases !n_checks !n_mismatch !n_specfail
